@@ -646,7 +646,7 @@ theorem pool1_opPick {s : St} (h : Pool1 ci s) (call pn : Nat) (m : String) (ctx
                 split
                 · exact h
                 · simp only
-                  have hrr : Pool1 ci { s with rr := (s.rr + 1) % 2 ^ 32 } :=
+                  have hrr : Pool1 ci { s with rr := (s.rr + 1) % 2 ^ 64 } :=
                     ⟨h.cin, bij_of_same h.bij ⟨rfl, rfl, fun _ => rfl⟩, tables_of_same h.tab ⟨rfl, rfl, rfl, rfl, rfl, rfl, rfl⟩,
                      h.cfgOk, h.size⟩
                   split
